@@ -38,7 +38,14 @@ LINES = [
     (b'REJECTED', 'REJ'), (b'REJECTED EXTERNAL ANONYMOUS', 'REJ'), (b'ERROR', 'ERR'), (b'ERROR "no"', 'ERR'),
     (b'DATA', 'DATA'), (b'DATA ' + COOKIE_DATA, 'DATA'), (b'DATA zz', 'DATA'), (b'AGREE_UNIX_FD', 'AGREE'),
     (b'FOO', 'JUNK'), (b'', 'JUNK'), (b'\xff\xfe', 'JUNK'), (b'BEGIN', 'JUNK'),
+    # a GUID is one run of hexadecimal digit pairs: white space inside it, or a second argument, is not a GUID
+    (b'OK 61 62', 'BADOK'), (b'OK 6162 6364', 'BADOK'), (b'OK 61\t62', 'BADOK'), (b'OK 6 1', 'BADOK'),
+    (b'OK 0x61', 'BADOK'), (b'OK +1', 'BADOK'),
 ]
+# characters the GUID argument is built from in the guid family
+GUID_ALPHABET = [b'6', b'a', b'F', b'0', b' ', b'\t', b'g', b'x', b'+', b'_', b'\x0b', b'\xe9']
+GUID_SMALL = [b'6', b'F', b' ', b'\t', b'g']
+HEXD = b'0123456789abcdefABCDEF'
 
 
 def obligations(tier):
@@ -52,6 +59,13 @@ def obligations(tier):
                               'step', {'mi': mi, 'unix': unix, 'pending': pending}, timeout=120, path_timeout=20, twin=True,
                               functions=FUNCS[:9], bounds='server line: symbolic choice among %d shapes; cookie lookup '
                               'outcome symbolic' % len(LINES)))
+    for n in range(1, (5 if tier == 'quick' else 6) + 1):
+        small = n >= 4 and not (tier == 'thorough' and n == 4)
+        for unix in (False, True):
+            obs.append(Ob('guid:len%d:%s' % (n, 'unix' if unix else 'tcp'), 'guid', {'n': n, 'unix': unix, 'small': small},
+                          timeout=900 if tier == 'quick' else 3000, path_timeout=20, twin=True, functions=FUNCS[:9],
+                          bounds='OK argument of %d characters, each a symbolic choice among %d (hex digits, blanks, '
+                                 'other)' % (n, len(GUID_SMALL) if small else len(GUID_ALPHABET))))
     kmax = 4 if tier == 'quick' else 5
     for k in range(1, kmax + 1):
         for unix in (False, True):
@@ -165,6 +179,46 @@ def build(family, p):
             reached()
         h.__name__ = 'step'
         return Spec(h, [('li', int), ('cookie_ok', bool)], witnesses=[(i, bool(i % 2)) for i in range(len(LINES))])
+    if family == 'guid':
+        n, unix = p['n'], p['unix']
+        alpha = GUID_SMALL if p.get('small') else GUID_ALPHABET
+
+        def h(code):
+            sels = decode_choice(code, [len(alpha)] * n)
+            with notrace():
+                arg = b''.join(alpha[i] for i in sels)
+                core = arg.strip(b' \t\n\r\x0b\x0c')
+                valid = len(core) > 0 and len(core) % 2 == 0 and all(c in HEXD for c in core)
+                saved_gp = authentication.getpass
+                authentication.getpass = type('G', (), {'getuser': staticmethod(lambda: 'user')})
+                try:
+                    ca = authentication.ClientAuthenticator()
+                    pr = FakeProto(_unix_transport() if unix else FakeTransport())
+                    ca.beginAuthentication(pr)
+                    pr.sent[:] = []
+                    failed = False
+                    try:
+                        ca.handleAuthMessage(b'OK ' + arg)
+                    except error.DBusAuthenticationFailed:
+                        failed = True
+                finally:
+                    authentication.getpass = saved_gp
+                begin = [m for m in pr.sent if m[:5] == b'BEGIN']
+                nego = [m for m in pr.sent if m[:17] == b'NEGOTIATE_UNIX_FD']
+                if not valid:
+                    check(failed and not begin and not nego and not ca.authenticationSucceeded(),
+                          'OK without a valid hexadecimal GUID was accepted')
+                else:
+                    check(not failed, 'OK with a valid GUID ended the connection')
+                    if unix:
+                        check(len(nego) == 1 and not begin, 'UNIX transport: OK must be followed by NEGOTIATE_UNIX_FD')
+                    else:
+                        check(len(begin) == 1 and ca.authenticationSucceeded(), 'client did not send BEGIN after OK')
+            reached()
+        h.__name__ = 'guid'
+        total = len(alpha) ** n
+        wit = sorted({0, 1, total - 1, total // 2, encode_choice(([0, 1, 2, 0, 1, 3] * 2)[:n], [len(alpha)] * n)})
+        return Spec(h, [('code', int)], witnesses=[(w,) for w in wit])
     if family == 'run':
         return _build_run(p)
     if family == 'full':
